@@ -189,7 +189,15 @@ impl Idle {
                             _ => (State::Idle(self), Err(Error::UnexpectedRadioResponse.into())),
                         }
                     }
-                    Err(e) => (State::Idle(self), Err(super::Error::Radio(e))),
+                    Err(e) => {
+                        // The frame was handed to the radio and may have been on the air:
+                        // consume its counter so that it is never reused for another uplink.
+                        // An exhausted counter space takes precedence over the radio error.
+                        if let mac::Response::SessionExpired = mac.rx2_complete() {
+                            return (State::Idle(self), Ok(Response::SessionExpired));
+                        }
+                        (State::Idle(self), Err(super::Error::Radio(e)))
+                    }
                 }
             }
         }
